@@ -76,14 +76,18 @@ CLAIMS = {
   extra_note=' ASA crypto: every prefix state of the crypto script is resumed on Cisco/Vpn.v (cuts inside the sub-mode block of an ipsec-proposal included); known finding F-C10-1 (entry left without peer).',
   technique='Coq resumability theorem for the line core + prefix-state replay of real scripts through the Coq device'),
  'C14': dict(
-  text='C14_linux_routes_covered_stepwise: Coq theorem (all route lists, every prefix). ACL half: after every command of the real script the '
+  text='C14_linux_routes_covered_stepwise: Coq theorem (all route lists, every prefix). C14_acl_insert_then_delete_safe_partial: Coq theorem '
+       'for every first-match semantics (any packet type, matcher, action, default): an intermediate ACL in which the new lines are inserted '
+       'top-down or the old lines deleted bottom-up gives every packet on which old and new ACL agree that same verdict; the shape is '
+       'evaluated on every intermediate ACL of the implementation\'s move-free ASA scripts. ACL half in general: after every command of the real script the '
        'verdict of every packet of a finite universe on which old and new ACL agree is evaluated in Coq, on whole configurations and on '
        'single-ACL cores for ASA and IOS; failures are classified by two decidable input predicates (known findings F-C14-1, F-C14-2), '
        'anything else is a violation.',
   design_ref='DESIGN.md section 4, C14',
   note='Trusted: Coq kernel; abstract matchers (one pseudo-random packet set per entry body); IOS semantics "an ACL without entries permits '
-       'everything". The general stepwise theorem is refuted for the current algorithm (see known findings); the proved part is the route half.',
-  technique='Coq theorem for route coverage + per-step verdict evaluation of real scripts in Coq with known-finding predicates'),
+       'everything". The general stepwise theorem is refuted for the current algorithm when lines are moved (see known findings); proved: the '
+       'route half and the ACL half for scripts without moves (insert top-down, delete bottom-up), the latter tied by the shape check.',
+  technique='Coq theorems (route coverage at every prefix; insert-then-delete safety for every first-match semantics) + shape check and per-step verdict evaluation of real scripts in Coq with known-finding predicates'),
  'C06': dict(
   text='In the dialogue model a wrong hostname / non-active HA state is junk at an inspected request and a missing marker leaves a plan '
        'without changing requests; the Coq theorems (for every plan and every device behaviour) say that nothing changing is sent and '
